@@ -234,6 +234,8 @@ func TestC13Table(t *testing.T) {
 	cts := []struct{ ct, filter string }{
 		{"application/json", ""}, {"text/html; charset=utf-8", ""}, {"image/png", ""}, {"", ""},
 		{"application/json", "json|xml"}, {"text/html", "json|xml"}, {"image/png", "image"}, {"", "json|xml"},
+		// filters that match everything, the empty type included
+		{"", ".*"}, {"image/png", ".*"}, {"", "^"}, {"", "json|"},
 	}
 	cells := 0
 	shard, nshards := vstat.Shard()
